@@ -433,6 +433,45 @@ Theorem C10_conc_completed_push :
 Proof. exact conc_completed_push_src. Qed.
 Print Assumptions C10_conc_completed_push.
 
+(* ... a Tag that has returned, of a blob that was stored, no other call of its batch naming the
+   same reference: index.json has the reference, whatever else ran at the same time ... *)
+Theorem C10_conc_completed_tag :
+  forall (H : list N -> N) (shuffle : nat -> list entry -> list entry),
+    (forall c l e, In e (shuffle c l) <-> In e l) ->
+    forall (ps : list phase) (calls : list ccall) (is : list nat) (i : nat) (d r : N),
+      phases_quiet H shuffle src_inplace src_unlink_first init ps = true ->
+      let s := run_phases H shuffle src_inplace src_unlink_first init ps in
+      let c := sched shuffle (start H s calls) is in
+      nth_error calls i = Some (CTag d r) -> exists_file (sfs s) (FBlob d) = true ->
+      (forall j x, nth_error calls j = Some x -> j <> i -> (forall d', x <> CTag d' r) /\ x <> CUntag r) ->
+      quietb c = true ->
+      exists l, read_index (cfs c) = Some l /\ In (d, Some r) l.
+Proof. exact conc_completed_tag_src. Qed.
+Print Assumptions C10_conc_completed_tag.
+
+(* ... and an Untag that has returned: index.json does not have the reference. *)
+Theorem C10_conc_completed_untag :
+  forall (H : list N -> N) (shuffle : nat -> list entry -> list entry),
+    (forall c l e, In e (shuffle c l) <-> In e l) ->
+    forall (ps : list phase) (calls : list ccall) (is : list nat) (i : nat) (r : N),
+      phases_quiet H shuffle src_inplace src_unlink_first init ps = true ->
+      let s := run_phases H shuffle src_inplace src_unlink_first init ps in
+      let c := sched shuffle (start H s calls) is in
+      nth_error calls i = Some (CUntag r) ->
+      (forall j x, nth_error calls j = Some x -> j <> i -> (forall d', x <> CTag d' r) /\ x <> CUntag r) ->
+      quietb c = true ->
+      exists l, read_index (cfs c) = Some l /\ forall n, ~ In (n, Some r) l.
+Proof. exact conc_completed_untag_src. Qed.
+Print Assumptions C10_conc_completed_untag.
+
+(* The hypothesis "no other call names the reference" is needed: two Tag calls of one reference,
+   both returned, the reference names the other blob. *)
+Theorem C10_conc_completed_tag_refuted_shared_reference :
+  exists (H : list N -> N) (s : st) (calls : list ccall) (is : list nat),
+    let c := sched (fun _ l => l) (start H s calls) is in
+    nth_error calls 0 = Some (CTag 1 10) /\ quietb c = true /\ read_index (cfs c) = Some [(2, Some 10); (1, None)].
+Proof. exact conc_completed_tag_needs_alone. Qed.
+
 (* Without indexLock (the same threads, the lock ignored) the first statement is false: two Tag
    calls, the earlier snapshot published last; both have returned, the resolver has both
    references, index.json has one. *)
